@@ -37,7 +37,8 @@ def key_of(mode, args):
 
 
 def run_case(ctx: Ctx, kind, scratch, cfgs, ops, spell_seed, prop: str):
-    r = C.Runner(kind, scratch, cfgs)
+    conf = {"auto_final_invocation_purge_hours": 0.0} if any(o[0] == "autopurge" for o in ops) else {}
+    r = C.Runner(kind, scratch, cfgs, **conf)
     outs, bad = [], None
     prev_sts: list = []
     args_of: dict[int, tuple] = {}
@@ -48,6 +49,8 @@ def run_case(ctx: Ctx, kind, scratch, cfgs, ops, spell_seed, prop: str):
             outs.append(out)
             if o[0] == "submit" and out[0] == 0:
                 args_of[out[1]], task_of[out[1]] = tuple(o[2]), o[1]
+            if o[0] == "nested" and out[0] == 0:
+                args_of[out[1]], task_of[out[1]] = tuple(o[3]), o[2]
             if o[0] == "batch":
                 for i, a in zip(out[1:], o[2]):
                     args_of[i], task_of[i] = tuple(a), o[1]
@@ -58,7 +61,7 @@ def run_case(ctx: Ctx, kind, scratch, cfgs, ops, spell_seed, prop: str):
                 seen = {}
                 for i, st in enumerate(sts):
                     t = task_of.get(i)
-                    if t is None or cfgs[t]["reg"] == "DISABLED" or STATUSES[st] != "REGISTERED":
+                    if t is None or st == 99 or cfgs[t]["reg"] == "DISABLED" or STATUSES[st] != "REGISTERED":
                         continue
                     k = (t, key_of(cfgs[t]["reg"], args_of[i]))
                     if k in seen and not bad:
@@ -70,7 +73,7 @@ def run_case(ctx: Ctx, kind, scratch, cfgs, ops, spell_seed, prop: str):
                 seen = {}
                 for i, st in enumerate(sts):
                     t = task_of.get(i)
-                    if t is None or cfgs[t]["run"] == "DISABLED" or STATUSES[st] != "RUNNING":
+                    if t is None or st == 99 or cfgs[t]["run"] == "DISABLED" or STATUSES[st] != "RUNNING":
                         continue
                     k = (t, key_of(cfgs[t]["run"], args_of[i]))
                     if k in seen and not bad:
@@ -78,7 +81,7 @@ def run_case(ctx: Ctx, kind, scratch, cfgs, ops, spell_seed, prop: str):
                     seen[k] = i
                 if out[0] == 10 and not bad:
                     i = out[1]
-                    was = STATUSES[prev_sts[i]] if i < len(prev_sts) else "?"
+                    was = STATUSES[prev_sts[i]] if i < len(prev_sts) and prev_sts[i] != 99 else "?"
                     t = task_of.get(i)
                     target = "CONCURRENCY_CONTROLLED" if (t is not None and cfgs[t]["reroute"]) else "CONCURRENCY_CONTROLLED_FINAL"
                     bad = (n, f"poll raised while handling blocked invocation #{i} in status {was} (needs {was}->{target}, op #{n})")
@@ -92,6 +95,47 @@ def run_case(ctx: Ctx, kind, scratch, cfgs, ops, spell_seed, prop: str):
 def classify_poll_raise(ops, outs, cfgs, n):
     """signature of a raising poll: which available status the blocked invocation was in and the task option"""
     return "poll-raises"
+
+
+def impl_only_cases(ctx: Ctx, prop: str):
+    rng = ctx.rng
+    mode = "run" if prop == "C06" else "reg"
+    out = []
+    for m in ("ARGUMENTS", "KEYS", "TASK"):
+        base = {"reg": "DISABLED", "raise": False, "run": "DISABLED", "reroute": True}
+        c = dict(base, **{mode: m})
+        cf = dict(c, reroute=False)
+        if prop == "C06":
+            out += [
+                # an older finished same-key invocation is purged while another one is RUNNING; then a third arrives
+                ([c, c], [("submit", 0, (1, 1)), ("poll", 1), ("start", 0), ("finish", 0), ("submit", 0, (1, 1)), ("poll", 1), ("start", 1),
+                          ("autopurge",), ("submit", 0, (1, 1)), ("poll", 2), ("start", 2), ("poll", 2)], 0),
+                ([c, c], [("submit", 0, (1, 2)), ("submit", 0, (1, 1)), ("poll", 1), ("poll", 1), ("start", 0), ("finish", 0), ("start", 1),
+                          ("autopurge",), ("submit", 0, (1, 1)), ("submit", 0, (1, 2)), ("poll", 2), ("poll", 2), ("start", 2), ("start", 3)], 1),
+                # a RUNNING invocation submits, from inside its body, a call with its OWN concurrency key
+                ([c, c], [("submit", 0, (1, 1)), ("poll", 1), ("start", 0), ("nested", 0, 0, (1, 1)), ("poll", 2), ("start", 1), ("poll", 2)], 0),
+                ([cf, cf], [("submit", 0, (2, 1)), ("poll", 1), ("start", 0), ("nested", 0, 0, (2, 1)), ("nested", 0, 0, (2, 2)), ("poll", 2), ("poll", 2),
+                            ("start", 1), ("start", 2)], 2),
+            ]
+        else:
+            out += [
+                ([c, c], [("submit", 0, (1, 1)), ("poll", 1), ("start", 0), ("finish", 0), ("submit", 0, (1, 1)), ("autopurge",), ("submit", 0, (1, 1)),
+                          ("submit", 0, (1, 2)), ("submit", 0, (1, 1))], 0),
+                ([c, c], [("submit", 0, (1, 1)), ("poll", 1), ("start", 0), ("nested", 0, 0, (1, 1)), ("nested", 0, 0, (1, 1)), ("submit", 0, (1, 1))], 1),
+            ]
+    for k in range(40 if ctx.thorough else 10):
+        cfgs = C.gen_cfgs(rng)
+        cfgs[0][mode] = rng.choice(C.MODES[1:])
+        if prop == "C06":
+            cfgs[0]["reg"] = "DISABLED"
+        ops = C.gen_ops(rng, cfgs, rng.randint(10, 26))
+        # sprinkle the two extra operations
+        for _ in range(rng.randint(1, 4)):
+            pos = rng.randint(2, len(ops))
+            n_inv = sum(1 for o in ops[:pos] if o[0] == "submit") + sum(len(o[2]) for o in ops[:pos] if o[0] == "batch")
+            ops.insert(pos, ("autopurge",) if rng.random() < 0.4 else ("nested", rng.randrange(max(1, n_inv)), rng.randrange(2), (rng.randint(1, 2), rng.randint(1, 2))))
+        out.append((cfgs, ops, rng.randrange(4)))
+    return out
 
 
 def main(ctx: Ctx, prop: str = "C07") -> int:
@@ -157,8 +201,25 @@ def main(ctx: Ctx, prop: str = "C07") -> int:
                                    "observed": [outs, sts, q], "model": [m_outs, m_sts, m_q]})
                 if kind == "mem" and len(ctx.coverage["samples"]) < 4:
                     ctx.sample({"cfgs": cfgs, "ops": ops[:10], "outputs": outs[:10]})
+        # ---- sequences with operations the model does not have (a submission made from INSIDE a running body; the auto-purge of
+        #      final invocations): run on the implementation only and judged by the oracle of the statement after every operation
+        extra = impl_only_cases(ctx, prop)
+        for kind in ("mem", "sqlite"):
+            for cfgs, ops, sp in extra:
+                outs, sts, q, bad = run_case(ctx, kind, scratch, cfgs, ops, sp, prop)
+                n_exec += 1
+                for o in ops:
+                    opc[o[0]] = opc.get(o[0], 0) + 1
+                if bad:
+                    n, what = bad
+                    key = ("poll-raises:" + what.split("(needs ")[1].split(",")[0]) if "poll raised" in what else \
+                        (("two-running:" if "RUNNING" in what else "two-registered:") + ("nested" if any(o[0] == "nested" for o in ops[:n + 1]) else
+                                                                                        "after-purge" if any(o[0] == "autopurge" for o in ops[:n + 1]) else "plain"))
+                    ctx.violation(key, f"{kind}: {what}; task options {cfgs}",
+                                  {"kind": "sequence", "backend": kind, "cfgs": cfgs, "ops": ops[:n + 1], "spelling": sp, "observed": outs[:n + 1]})
     finally:
         world.rm_scratch(scratch)
+    ctx.notes["impl_only_sequences"] = len(extra)
     ctx.count(n_exec, len({json.dumps([c, o]) for c, o, _ in cases}))
     ctx.notes["sequences"] = {"cases": len(cases), "executions": n_exec, "op_histogram": opc}
     ctx.assumptions += ["two tasks (a, b), values in {1,2}, key argument a; runners r1, r2"]
